@@ -43,7 +43,7 @@ impl Inv {
         }
     }
     pub fn describe(&self) -> String {
-        let mut s = format!("rsbdd <{}> `{}`", ["--evaluate", "file", "stdin", "named pipe", "/dev/stdin", "stdin in pieces", "file named -"][self.channel as usize % 7], self.text);
+        let mut s = format!("rsbdd <{}> `{}`", ["--evaluate", "file", "stdin", "named pipe", "/dev/stdin", "stdin in pieces", "file named -", "stdin = a regular file read from an offset"][self.channel as usize % 8], self.text);
         if let Some(o) = &self.ordering {
             s.push_str(&format!(" -o <{:?}>", o));
         }
@@ -69,11 +69,11 @@ pub fn invoke(ctx: &Ctx, inv: &Inv, tag: &str) -> RunOut {
     let mut args: Vec<String> = Vec::new();
     let mut stdin: Option<Vec<u8>> = None;
     let mut feed = cli::Feed::default();
-    match inv.channel % 7 {
+    match inv.channel % 8 {
         0 => args.push(format!("--evaluate={}", inv.text)),
         c => {
-            // 1 regular file, 2 stdin, 3 named pipe, 4 /dev/stdin, 5 stdin in small pieces, 6 a file named `-`
-            let mode = [0u8, 0, 1, 3, 4, 5, 6][c as usize];
+            // 1 regular file, 2 stdin, 3 named pipe, 4 /dev/stdin, 5 stdin in small pieces, 6 a file named `-`, 7 stdin is a regular file positioned after a consumed line
+            let mode = [0u8, 0, 1, 3, 4, 5, 6, 7][c as usize];
             let plan = super::common::plan_input(mode, &dir, "formula.txt", inv.text.as_bytes());
             if let Some(p) = plan.path_arg {
                 args.push(p);
@@ -84,7 +84,7 @@ pub fn invoke(ctx: &Ctx, inv: &Inv, tag: &str) -> RunOut {
     }
     if let Some(o) = &inv.ordering {
         let p = dir.join(super::common::hostile_file_name(o.len(), "ordering.txt"));
-        if inv.channel % 7 == 3 || inv.channel % 7 == 5 {
+        if inv.channel % 8 == 3 || inv.channel % 8 == 5 {
             // the ordering through a named pipe as well
             feed.fifos.push((p.clone(), o.as_bytes().to_vec(), [1usize, 5, 100][o.len() % 3]));
         } else {
